@@ -102,6 +102,10 @@ pub fn check_antichain(cells: &[Cell], label: &str) -> Result<Vec<u64>, String> 
 }
 
 fn check_case(case: &Case, st: &mut Stats) -> Result<(), String> {
+    if case.script.perm_seed % 4 == 1 {
+        super::c08::poison_compact(case.script.perm_seed >> 2);
+        st.hit("failing-compact-call-first");
+    }
     let b = sets::build(&case.script);
     let cells = b.antichain.clone();
     let out1 = check_antichain(&cells, "input")?;
